@@ -13,7 +13,7 @@ from .models import Models
 from .source import Source
 from .spec import Schema
 
-SIDE_MODULES = ["specfns", "vecspec", "autodiff_c", "compiler_c", "analysis_c", "expressions_c", "constraints_c", "problem_c"]
+SIDE_MODULES = ["specfns", "vecspec", "autodiff_c", "compiler_c", "analysis_c", "expressions_c", "constraints_c", "problem_c", "solvers_c"]
 
 
 class Engine:
@@ -56,3 +56,144 @@ class Engine:
         obs = [o for r in reports for o in r.obligations]
         verdicts = discharge(obs, tier=tier, timeout_ms=timeout_ms)
         return reports, obs, verdicts
+
+
+# ------------------------------------------------------------------------------------------- parallel (function, case) workers
+_WORKER_ENGINE = None
+
+
+def _worker_init(repo):
+    global _WORKER_ENGINE
+    _WORKER_ENGINE = Engine(repo)
+
+
+def _worker_run(item):
+    """Explore one (function, case), discharge its obligations in-process (z3; cvc5 on unknowns / thorough) and
+    return plain data."""
+    import time as _t
+    from .contracts import verify_function
+    from .discharge import to_smt2, _run_z3, _run_cvc5
+    key, cname, tier, timeout_ms = item
+    eng = _WORKER_ENGINE
+    ct = eng.reg.contracts[key]
+    t0 = _t.time()
+    rep = verify_function(eng.src, eng.reg, eng.schema_factory, eng.models, ct, only_cases={cname})
+    import z3 as _z3
+    from .path import Obligation as _Ob
+
+    def solve_one(o):
+        if _z3.is_true(o.goal):
+            return "proved", 0.0, "", "trivial"
+        text = to_smt2(o)
+        zv, dt, det = _run_z3((text, timeout_ms))
+        v, solver = zv, "z3"
+        if tier == "thorough" or zv == "unknown":
+            cv, cdt, cdet = _run_cvc5((text, timeout_ms))
+            dt += cdt
+            if zv == "unknown" and cv != "unknown":
+                v, solver, det = cv, "cvc5", cdet
+            elif zv != "unknown" and cv != "unknown" and cv != zv:
+                v, det = "disagree", f"z3={zv} cvc5={cv}"
+            elif zv == "unknown":
+                det = f"z3: {det}; cvc5: {cdet}"
+        if v == "unknown":
+            zv2, dt2, det2 = _run_z3((text, timeout_ms * 3))
+            if zv2 != "unknown":
+                v, solver, det = zv2, "z3", det2
+            dt += dt2
+        return v, dt, det, solver
+
+    # obligations raised at the same program point share their assumptions: try their conjunction first
+    groups: dict = {}
+    for i, o in enumerate(rep.obligations):
+        groups.setdefault(tuple(a.get_id() for a in o.assumptions), []).append(i)
+    verdicts: dict = {}
+    for _k, idxs in groups.items():
+        nontrivial = [i for i in idxs if not _z3.is_true(rep.obligations[i].goal)]
+        for i in idxs:
+            if i not in nontrivial:
+                verdicts[i] = ("proved", 0.0, "", "trivial")
+        if len(nontrivial) > 1 and tier != "thorough":
+            first = rep.obligations[nontrivial[0]]
+            conj = _Ob("batch", first.assumptions, _z3.And(*[rep.obligations[i].goal for i in nontrivial]))
+            v, dt, det, solver = solve_one(conj)
+            if v == "proved":
+                for i in nontrivial:
+                    verdicts[i] = ("proved", dt / len(nontrivial), "", solver + " (batched)")
+                continue
+        for i in nontrivial:
+            verdicts[i] = solve_one(rep.obligations[i])
+    obs = []
+    for i, o in enumerate(rep.obligations):
+        v, dt, det, solver = verdicts[i]
+        obs.append({"oid": o.oid, "kind": o.kind, "path_sig": o.path_sig, "meta": {k: str(x) for k, x in o.meta.items()},
+                    "verdict": v, "solver": solver, "seconds": dt, "detail": det, "n_assumptions": len(o.assumptions),
+                    "goal": str(o.goal)[:300]})
+    return {"key": key, "case": cname, "status": rep.status, "paths": rep.paths, "infeasible": rep.infeasible,
+            "unsupported": sorted(set(rep.unsupported)), "vacuous": rep.vacuous_cases, "inlined": sorted(rep.inlined),
+            "callees": sorted(rep.callee_contracts), "path_outcomes": rep.path_outcomes, "seconds": _t.time() - t0,
+            "obligations": obs}
+
+
+def _machinery_digest() -> str:
+    import hashlib
+    root = os.path.dirname(os.path.dirname(os.path.abspath(__file__)))
+    h = hashlib.sha256()
+    for sub in ("pyvc", "contracts"):
+        for fn in sorted(os.listdir(os.path.join(root, sub))):
+            if fn.endswith(".py"):
+                h.update(fn.encode())
+                h.update(open(os.path.join(root, sub, fn), "rb").read())
+    return h.hexdigest()
+
+
+def verify_parallel(eng: Engine, keys: list[str], tier: str, timeout_ms: int, workers: int = 16):
+    """Verify every (function, case) in a process pool.  Results are memoised on disk under build/cache, keyed by the
+    digest of the repository source, of the machinery (pyvc + contracts) and of the work item, so a changed tree or a
+    changed contract is always re-verified; VERIF_NOCACHE=1 disables the memo."""
+    import hashlib
+    import json as _json
+    from concurrent.futures import ProcessPoolExecutor
+    from .contracts import list_cases
+    root = os.path.dirname(os.path.dirname(os.path.abspath(__file__)))
+    cdir = os.path.join(root, "build", "cache")
+    use_cache = os.environ.get("VERIF_NOCACHE") != "1"
+    base = eng.src.digest.hexdigest() + _machinery_digest()
+    items = []
+    skipped = {}
+    for k in keys:
+        ct = eng.reg.contracts[k]
+        if ct.trusted or ct.bounded:
+            skipped[k] = "trusted" if ct.trusted else "bounded"
+            continue
+        if k not in eng.src.funcs:
+            skipped[k] = "missing"
+            continue
+        for cn in list_cases(ct):
+            items.append((k, cn, tier, timeout_ms))
+    results_by_item: dict = {}
+    todo = []
+    for it in items:
+        ck = hashlib.sha256((base + repr(it)).encode()).hexdigest()
+        path = os.path.join(cdir, ck + ".json")
+        if use_cache and os.path.exists(path):
+            try:
+                results_by_item[it] = _json.load(open(path))
+                continue
+            except Exception:
+                pass
+        todo.append((it, path))
+    if todo:
+        # longest work first (solver drivers have many paths per case)
+        with ProcessPoolExecutor(max_workers=workers, initializer=_worker_init, initargs=(eng.repo,)) as ex:
+            outs = list(ex.map(_worker_run, [it for it, _ in todo], chunksize=1))
+        os.makedirs(cdir, exist_ok=True)
+        for (it, path), out in zip(todo, outs):
+            results_by_item[it] = out
+            if use_cache:
+                try:
+                    with open(path, "w") as f:
+                        _json.dump(out, f)
+                except Exception:
+                    pass
+    return [results_by_item[it] for it in items], skipped
